@@ -421,3 +421,86 @@ def install_message():
     Msg.from_bytes = classmethod(msg_from_bytes)
     _msg_installed = True
     return MON
+
+
+# --------------------------------------------------------------------------- Unpacker cursor / step monitors (C04)
+
+_unp_installed = False
+
+
+class Steps:
+    """Logical work counter: primitive calls + from_unpacker calls since reset()."""
+    n = 0
+
+    @classmethod
+    def reset(cls):
+        cls.n = 0
+
+
+def install_unpacker():
+    global _unp_installed
+    if _unp_installed:
+        return MON
+    U = packer_mod.Unpacker
+    names = ["unpack_char", "unpack_uint", "unpack_int", "unpack_float", "unpack_double", "unpack_fstring"]
+    wrapped = {}
+
+    def make(name, orig):
+        def prim(self, *a, **k):
+            Steps.n += 1
+            if not MON.enabled:
+                return orig(self, *a, **k)
+            try:
+                p0 = self.get_position()
+                n = len(self.get_buffer())
+            except Exception:
+                return orig(self, *a, **k)
+            res = orig(self, *a, **k)
+            try:
+                MON.hit("unpacker.primitive")
+                p1 = self.get_position()
+                if not (0 <= p1 <= n):
+                    MON.witness("C04", f"unpacker.cursor_beyond_buffer.{name}", {"pos": p1, "len": n})
+                if p1 < p0:
+                    MON.witness("C04", f"unpacker.cursor_went_back.{name}", {"from": p0, "to": p1})
+                if isinstance(res, (bytes, bytearray)) and a and isinstance(a[0], int) and len(res) != a[0]:
+                    MON.witness("C04", f"unpacker.short_read.{name}", {"asked": a[0], "got": len(res)})
+            except Exception as e:
+                MON.hit("monitor_error:unpacker:" + type(e).__name__)
+            return res
+        prim.__name__ = name
+        return prim
+
+    for name in names:
+        orig = U.__dict__[name]
+        w = make(name, orig)
+        wrapped[orig] = w
+        setattr(U, name, w)
+    # aliases bound at class-creation time (unpack_fopaque = unpack_fstring, unpack_enum = unpack_int)
+    for alias, target in (("unpack_fopaque", "unpack_fstring"), ("unpack_enum", "unpack_int")):
+        setattr(U, alias, U.__dict__[target])
+
+    inner = Avp.__dict__["from_unpacker"].__func__
+
+    def from_unpacker(cls, unpacker):
+        Steps.n += 1
+        if not MON.enabled:
+            return inner(cls, unpacker)
+        try:
+            p0 = unpacker.get_position()
+            n = len(unpacker.get_buffer())
+        except Exception:
+            return inner(cls, unpacker)
+        res = inner(cls, unpacker)
+        try:
+            MON.hit("from_unpacker.progress")
+            p1 = unpacker.get_position()
+            if p1 - p0 < 8 or p1 > n:
+                MON.witness("C04", "from_unpacker.no_progress_or_overrun", {"from": p0, "to": p1, "len": n})
+        except Exception as e:
+            MON.hit("monitor_error:from_unpacker.progress:" + type(e).__name__)
+        return res
+
+    Avp.from_unpacker = classmethod(from_unpacker)
+    _unp_installed = True
+    return MON
